@@ -322,19 +322,32 @@ void vf_run(const uint8_t *data, size_t len)
         Obs oa, ob;
         uint64_t fh = g_faults_hit;
         if (c16 && g_faults_hit && g_also_ours.empty()) g_also_ours = {"C08"};
-        apply(M, cx, op, a, b, K, maxlive, twin ? &oa : nullptr);
-        if (cx.fault_seen) cx.ops_after_fault++;
-        if (g_faults_hit != fh) cx.fault_seen = true;
-        if (!twin) check_live(M);
         bool do_audit = g_want_state ? my >= last_idx : (total <= 24 || (my % 8) == 7);
-        if (do_audit) audit(M, K, twin ? &oa : nullptr);
-        if (twin) {
-            apply(MW, cx, op, a, b, K, maxlive, &ob);
-            if (do_audit) audit(MW, K, &ob);
-            CHECK(oa == ob, "C15.map.reuse", "after clear the map behaves differently from a freshly initialised one (op %s)", OPN[op]);
+        bool first_clear = c15 && op == CLEAR_CB && !twin;
+        if (!twin && !first_clear) {
+            apply(M, cx, op, a, b, K, maxlive, nullptr);
+            if (cx.fault_seen) cx.ops_after_fault++;
+            if (g_faults_hit != fh) cx.fault_seen = true;
+            check_live(M);
+            if (do_audit) audit(M, K, nullptr);
+            continue;
+        }
+        bool okA = model_ok([&] { apply(M, cx, op, a, b, K, maxlive, &oa); if (do_audit || first_clear) audit(M, K, &oa); }), okB;
+        if (first_clear) {
+            twin = true;
+            MW.init("map'");
+            TRACE("twin created");
+            oa.clear();
+            okA = model_ok([&] { audit(M, K, &oa); }) && okA;
+            okB = model_ok([&] { audit(MW, K, &ob); });
+        } else {
+            okB = model_ok([&] { apply(MW, cx, op, a, b, K, maxlive, &ob); if (do_audit) audit(MW, K, &ob); });
             cx.reuse = true;
         }
-        if (op == CLEAR_CB && c15 && !twin) { twin = true; MW.init("map'"); TRACE("twin created"); }
+        CHECK(okA == okB, "C15.map.reuse", "after clear the map %s the map model where a freshly initialised one %s (op %s)",
+              okA ? "satisfies" : "violates", okB ? "satisfies it" : "does not", OPN[op]);
+        if (!okA) throw Abandon{"C08.(cleared map and fresh twin alike)"};
+        CHECK(oa == ob, "C15.map.reuse", "after clear the map behaves differently from a freshly initialised one (op %s)", OPN[op]);
     }
     g_cur_op = "final audit";
     audit(M, K, nullptr);
